@@ -258,6 +258,19 @@ def run(ctx):
             ctx.trace_ok()
     ctx.sample({"mode": "euler", "representatives": k, "units": st["sys"]})
 
+    # the same three numbers read as degrees and as radians, in turn, in one process: each reading is its own matrix
+    for trip in ((90.0, 45.0, 30.0), (1.0, 2.0, 3.0), (0.5, 0.0, 7.0)):
+        for order in (("rad", "deg", "rad"), ("deg", "rad", "deg")):
+            ctx.case(("units_in_turn", trip, order), nontrivial=True)
+            okm = True
+            for unit_ in order:
+                Rm = np.asarray(rotation_matrix(*trip, radians=(unit_ == "rad")))
+                f_ = 1.0 if unit_ == "rad" else math.pi / 180
+                okm = okm and float(np.max(np.abs(Rm - Rz(trip[2] * f_) @ Ry(trip[1] * f_) @ Rz(trip[0] * f_)))) < 1e-12
+            if not okm:
+                ctx.violation("euler/units_in_turn", {"angles": trip, "order": order})
+            else:
+                ctx.trace_ok()
     # ------------------ composites ---------------------------------------------------------------
     g = load(ctx, "composite", {"MaxSteps": steps})
     # every length in microns, and again in metres (coordinates of 1e-5: nothing may depend on an absolute scale)
@@ -346,17 +359,20 @@ def run(ctx):
           # rigid cluster = rotate then translate
           if n >= 2:
               sp = Spheres([Sphere(n=1.5, r=0.5 * U_, center=tuple(c)) for c in centers], warn=False)
-              ang = tuple(rng.uniform(-3, 3) for _ in range(3))
-              tr = tuple(U_ * rng.uniform(-5, 5) for _ in range(3))
-              rc = RigidCluster(sp, rotation=ang, translation=tr)
-              got = np.array([s.center for s in rc.scatterers], dtype=float)
               com = base.mean(0)
-              want = com + (base - com) @ (Rz(ang[2]) @ Ry(ang[1]) @ Rz(ang[0])).T + np.array(tr)
-              ctx.case(("rigid", n, U_))
-              if np.max(np.abs(got - want)) > TOL:
-                  ctx.violation("composite/rigidcluster", {"n": n, "rotation": ang, "translation": tr})
-              else:
-                  ctx.trace_ok()
+              a_, t_ = [rng.uniform(-3, 3) for _ in range(3)], [U_ * rng.uniform(-5, 5) for _ in range(3)]
+              # generic motions, and motions along / about single axes (components that are exactly zero)
+              for ang, tr in ((tuple(a_), tuple(t_)), ((a_[0], 0.0, 0.0), (0.0, 0.0, t_[2])), ((0.0, a_[1], 0.0), (t_[0], 0.0, 0.0)),
+                              ((0.0, 0.0, a_[2]), (0.0, t_[1], t_[2])), ((0.0, 0.0, 0.0), (t_[0], t_[1], 0.0)),
+                              ((a_[0], a_[1], 0.0), (0.0, 0.0, 0.0))):
+                  rc = RigidCluster(sp, rotation=ang, translation=tr)
+                  got = np.array([s.center for s in rc.scatterers], dtype=float)
+                  want = com + (base - com) @ (Rz(ang[2]) @ Ry(ang[1]) @ Rz(ang[0])).T + np.array(tr)
+                  ctx.case(("rigid", n, U_, tuple(v == 0 for v in ang + tr)))
+                  if np.max(np.abs(got - want)) > TOL:
+                      ctx.violation("composite/rigidcluster", {"n": n, "rotation": ang, "translation": tr})
+                  else:
+                      ctx.trace_ok()
           # a union / difference / intersection of two spheres turns about its first member's centre
           if n == 2:
               from holopy.scattering.scatterer import Union, Difference, Intersection
